@@ -5,6 +5,7 @@ import sys
 sys.path.insert(0, os.path.join(os.path.dirname(os.path.abspath(__file__)), '..'))
 import vlib
 from sem import check_common as CC
+import c02_ext
 
 CLAUSE = {'filter', 'calc', 'rename', 'keepdrop', 'sub'}
 INNER = {'arith_c', 'unary_num', 'concat_c', 'str_un', 'not', 'zip_arith', 'setop'}
@@ -12,8 +13,9 @@ INNER = {'arith_c', 'unary_num', 'concat_c', 'str_un', 'not', 'zip_arith', 'seto
 
 def main(ck):
     if ck.replay_path:
-        return CC.replay(ck)
-    pr = ck.proof('C02')
+        return c02_ext.replay(ck) if c02_ext.is_ext_replay(ck.replay_path) else CC.replay(ck)
+    c02_ext.prebuild(ck)
+    pr = ck.proof('C02', extra_modules=('VtlModel.Props.C02Ext',))
     q = ck.quick()
     res = []
     res += CC.run_stream(ck, 'single-clause', 80 if q else 2500, dict(allow=CLAUSE), dict(depth=1))
@@ -21,6 +23,7 @@ def main(ck):
     res += CC.run_stream(ck, 'clause-chain-flat', 80 if q else 2500, dict(allow=CLAUSE | INNER, flat=True), dict())
     res += CC.run_stream(ck, 'clause-over-expression', 60 if q else 2000, dict(allow=CLAUSE | INNER), dict())
     CC.report(ck, res)
+    c02_ext.run_ext(ck)          # unpivot, pivot, aggr clause, calc with roles, attributes (Props/C02Ext.lean)
     ck.cov['rule'] = ('case = (script, input data); non-trivial = model and engine agree on a non-empty result; distinct by (script, data)')
     if not pr['ok'] and not ck.viol:
         ck.unproved('Props.C02:' + ','.join(pr['failed'] or pr['forbidden'] or pr['bad_axioms']), 'Lean build/audit failed: ' + pr['log'][-400:])
@@ -28,7 +31,7 @@ def main(ck):
                'modelled not verified: DuckDB evaluation of the generated SQL')
     ck.assumptions += ['VTL clause semantics as restated in lean/VtlModel/Sem/Eval.lean (calc items are evaluated simultaneously on the input row; '
                        'overwritten measures move to the end of the component list, as semantic_analysis reports)',
-                       'identifiers and measures only (attributes are not modelled yet)']
+                       'core streams: identifiers and measures only; attributes, unpivot, pivot, aggr clause, calc with roles: extension stream (checks/c02_ext.py)']
 
 
 vlib.run_check('C02', main)
